@@ -85,19 +85,35 @@ def handle (j : Json) : R Json := do
     return reply input (NrpsPks.fromJson rules ctx input) NrpsPks.toJson (NrpsPks.valid rules ctx)
       [("may_reuse", toJson (Spec.nrpsPksMayReuse ctx input))]
   | "hmmdet" =>
-    let o := fldD j "opts" (jObj [])
-    let opts : HmmOpts := ⟨(strF o "strictness").toOption.getD "relaxed",
-                           ← listOf asStr (fldD o "rule_names" (jArr [])),
-                           boolFD o "fungi" false,
-                           ← decOf (fldD o "cutoff" (jArr [toJson (1 : Int), toJson (0 : Int)])),
-                           ← decOf (fldD o "neighbourhood" (jArr [toJson (1 : Int), toJson (0 : Int)]))⟩
+    let optsOf (o : Json) : R HmmOpts := do
+      return ⟨(strF o "strictness").toOption.getD "relaxed",
+              ← listOf asStr (fldD o "rule_names" (jArr [])),
+              boolFD o "fungi" false,
+              ← decOf (fldD o "cutoff" (jArr [toJson (1 : Int), toJson (0 : Int)])),
+              ← decOf (fldD o "neighbourhood" (jArr [toJson (1 : Int), toJson (0 : Int)]))⟩
+    let opts ← optsOf (fldD j "opts" (jObj []))
     let out := HmmDet.regenerate ctx opts input
     let protos := match out with
       | .reuse y => y.rules.protoclusters.map fun p =>
           jObj [("loc", locJ p.loc), ("core", locJ p.core), ("product", .str p.product)]
       | _ => []
+    -- the producing run (present when the stored JSON was written by the real run_on_record)
+    let produced ← match j.getObjVal? "saved_opts" with
+      | .ok so => do
+        let saved ← optsOf so
+        let fresh := match j.getObjVal? "fresh_json" with
+          | .ok fj => (wireToJ fj).toOption
+          | .error _ => none
+        let target := fresh.getD input
+        let noGenes := boolFD j "no_genes" false
+        pure ([("saved_under", toJson (Spec.hmmDetSavedUnder saved target)), ("saved_ok", toJson saved.ok)]
+          ++ (if noGenes then
+                [("fresh_model", jToWire (HmmDet.runNoGenes { ctx with recordId := (strF j "saved_record_id").toOption.getD ctx.recordId }
+                                            saved ((strF j "tool").toOption.getD "")).toJson)]
+              else []))
+      | .error _ => pure []
     return reply input out HmmDet.toJson (HmmDet.valid ctx)
-      [("may_reuse", toJson (Spec.hmmDetMayReuse ctx opts input)), ("protos", jArr protos)]
+      ([("may_reuse", toJson (Spec.hmmDetMayReuse ctx opts input)), ("protos", jArr protos)] ++ produced)
   | "ruleres" =>
     return reply input (RuleRes.fromJson ctx input) RuleRes.toJson (RuleRes.valid ctx)
   | "sideload" =>
@@ -162,6 +178,18 @@ def handle (j : Json) : R Json := do
       | none =>
         outs := outs ++ [jObj [("outcome", .str (outcomeName out))]]
     return jObj [("steps", jArr outs)]
+  | "resfile" =>
+    let out := ResultsFile.fromJson input
+    let extra := [("may_reuse", toJson (Spec.fileMayReuse input)),
+                  ("schema_current", toJson ResultsFile.schemaVersion),
+                  ("schema_compatible", jInts ResultsFile.compatibleSchemas)]
+    match out with
+    | .reuse f =>
+      return jObj ([("outcome", .str "reuse"), ("version", .str f.version), ("input_file", .str f.inputFile),
+        ("taxon", .str (ResultsFile.readDataTaxon "" f)),
+        ("modules", jArr (f.records.map fun r => jToWire (.obj r.modules))),
+        ("rewritten_schema", match Spec.field f.toJson "schema" with | some v => jToWire v | none => .null)] ++ extra)
+    | o => return jObj ([("outcome", .str (outcomeName o))] ++ extra)
   | "runmod" =>
     let hasPrev ← boolF j "has_prev"
     let regenKind ← strF j "regen"       -- "reuse" | "discard" | "refuse"
